@@ -29,6 +29,9 @@ func init() {
 		Assumptions: []string{"resource.Value/Collection write semantics (C02, C05)", "unitpb.Convert32 arithmetic (C18)"},
 		Run:         runC20,
 		Controls: []Control{
+			{Name: "presets-option-appends", File: "pkg/trait/fanspeedpb/model_opts.go", Old: "\t\targs.presets = presets\n", New: "\t\targs.presets = append(args.presets, presets...)\n", Expect: "R20.1"},
+			{Name: "receipt-reset-only-on-version-change", File: "pkg/trait/publicationpb/model.go", Old: "\t\tif args.resetReceipt {\n", New: "\t\tif args.resetReceipt && newVal.Version != old.(*traits.Publication).Version {\n", Expect: "R20.15"},
+			{Name: "unknown-units-convert", File: "pkg/trait/vendingpb/unitpb/convert.go", Old: "\tif !fromUnitOk || !toUnitOk || fromUnit.category != toUnit.category {", New: "\t_, _ = fromUnitOk, toUnitOk\n\tif fromUnit.category != toUnit.category {", Expect: "R20.14"},
 			{Name: "meter-newmodel-overwrites-period", File: "pkg/trait/meterpb/model.go", Old: "\t\tproto.Merge(newVal, old)\n", New: "", Expect: "R20.13"},
 			{Name: "computed-properties-after-caller-options", File: "pkg/trait/publicationpb/model.go", Old: "\topts = append([]resource.WriteOption{m.withComputedProperties(args)}, opts...)", New: "\topts = append(opts, m.withComputedProperties(args))", Expect: "R20.11"},
 			{Name: "revert-F21-consumables-to-inventory", File: "pkg/trait/vendingpb/model_opts.go", Old: "\t\targs.consumableOptions = append(args.consumableOptions, opts...)\n\t})", New: "\t\targs.inventoryOptions = append(args.inventoryOptions, opts...)\n\t})", Expect: "R20.1"},
@@ -66,6 +69,10 @@ func runC20(c *an.Ctx) {
 	r2010(c)
 	r2011(c)
 	r2013(c)
+	r2014(c)
+	r2015(c)
+	c.Min("R20.15", 1)
+	c.Min("R20.14", 2)
 	c.Min("R20.13", 2)
 	// a dispense that fails leaves the stock as it was: the interceptor restores the whole old value before it reports
 	// the error (shared with R14.8, for the vending model)
@@ -1525,6 +1532,64 @@ func r2011(c *an.Ctx) {
 // before the caller's options, so anything that accumulates keeps the defaults).
 func r201accumulate(c *an.Ctx) {
 	const rule = "R20.1"
+	// configuration lists (presets, modes, records - anything but the lists of resource options, which are meant to
+	// accumulate) are REPLACED by the option that sets them: the package defaults are applied before the caller's
+	// options, so an option that appends keeps the defaults in front of what was configured
+	for _, fn := range c.Prog.FuncsIn("pkg/trait") {
+		if c.Prog.IsGenerated(fn.Pos()) || fn.Parent() == nil {
+			continue
+		}
+		an.Instrs(fn, func(in ssa.Instruction) {
+			st, ok := in.(*ssa.Store)
+			if !ok {
+				return
+			}
+			_, sn, fld, isF := an.FieldOf(st.Addr)
+			if !isF || !strings.HasSuffix(sn, ".modelArgs") {
+				return
+			}
+			sl, isSlice := st.Val.Type().Underlying().(*types.Slice)
+			if !isSlice || strings.Contains(sl.Elem().String(), "pkg/resource.") {
+				return
+			}
+			appendsToItself := false
+			for _, s0 := range an.SourcesOpaque(st.Val) {
+				call, isCall := s0.(*ssa.Call)
+				if !isCall || an.CalleeName(call) != "builtin append" {
+					continue
+				}
+				// ... the whole list the option was given (an option that adds ONE entry, like WithPreset(name, …), is
+				// additive by design)
+				wholeList := false
+				if len(call.Call.Args) == 2 {
+					for _, a := range an.SourcesOpaque(call.Call.Args[1]) {
+						if fv, isFV := a.(*ssa.FreeVar); isFV && types.Identical(fv.Type(), st.Val.Type()) {
+							wholeList = true
+						}
+						if prm, isP := a.(*ssa.Parameter); isP && types.Identical(prm.Type(), st.Val.Type()) {
+							wholeList = true
+						}
+					}
+				}
+				if !wholeList {
+					continue
+				}
+				for _, b := range an.SourcesOpaque(call.Call.Args[0]) {
+					if _, sn2, f2, isF2 := an.FieldOf(b); isF2 && sn2 == sn && f2 == fld {
+						appendsToItself = true
+					}
+				}
+			}
+			top := fn
+			for top.Parent() != nil {
+				top = top.Parent()
+			}
+			// only options that are also part of the package defaults matter (the defaults run first)
+			c.SawFunc(an.FuncName(top))
+			c.Check(!appendsToItself, rule, an.FuncName(top)+"|"+fld+" is replaced by the option that configures it", st.Pos(), "",
+				"the option appends to modelArgs."+fld+" instead of replacing it: the package defaults are applied first, so a model constructed with explicit "+fld+" holds the defaults followed by the configured ones (indexes shifted, default names still accepted)")
+		})
+	}
 	for _, fn := range c.Prog.FuncsIn("pkg/trait") {
 		if c.Prog.IsGenerated(fn.Pos()) || fn.Parent() == nil {
 			continue
@@ -1732,5 +1797,118 @@ func r2013(c *an.Ctx) {
 	}
 	if n == 0 {
 		c.Unk(rule, name+"|the period is completed", fn.Pos(), "NewModel's interceptor does not stamp start/end time")
+	}
+}
+
+// r2014: a conversion is only made between units the table knows: every successful return of unitpb.Convert that comes
+// after a lookup in the unit table lies behind that lookup's ok result. A unit that is not in the table yields the
+// zero entry (no category, factor 0): two unknown units then "match" and the conversion divides by zero - NaN with a
+// nil error, which DispenseInstantly stores as used and remaining.
+func r2014(c *an.Ctx) {
+	const rule = "R20.14"
+	fn := mustFunc(c, rule, "pkg/trait/vendingpb/unitpb", "", "Convert")
+	if fn == nil {
+		return
+	}
+	name := an.FuncName(fn)
+	c.SawFunc(name)
+	n := 0
+	for _, f := range append([]*ssa.Function{fn}, an.TransparentCalleesOf(fn, 2)...) {
+		an.Instrs(f, func(in ssa.Instruction) {
+			lk, ok := in.(*ssa.Lookup)
+			if !ok {
+				return
+			}
+			if _, isMap := lk.X.Type().Underlying().(*types.Map); !isMap {
+				return
+			}
+			n++
+			good := lk.CommaOk
+			if good {
+				for _, r := range an.Returns(fn) {
+					if f != fn || !an.Reaches(lk, r) {
+						continue
+					}
+					if !provablyNilAt(r.Results[len(r.Results)-1], r) {
+						continue
+					}
+					guarded := false
+					for _, e := range an.GuardingEdges(r) {
+						cond, branch := e.If.Cond, e.Branch
+						for {
+							if u, isNot := cond.(*ssa.UnOp); isNot && u.Op == token.NOT {
+								cond, branch = u.X, !branch
+								continue
+							}
+							break
+						}
+						if an.IsExtractOf(cond, lk, 1) && branch {
+							guarded = true
+						}
+					}
+					if !guarded {
+						good = false
+					}
+				}
+			}
+			c.Check(good, rule, fmt.Sprintf("%s|a unit that is not in the table is an error (lookup %d)", name, n), lk.Pos(), "the conversion lies behind the lookup's ok",
+				"a successful conversion is returned without the unit having been found in the table: an unknown unit reads as the zero entry (empty category, factor 0), so two unknown units are \"compatible\" and the result is NaN with a nil error - the conversion error is swallowed")
+		})
+	}
+	if n == 0 {
+		c.Unk(rule, name+"|a unit that is not in the table is an error", fn.Pos(), "no lookup in a unit table found")
+	}
+}
+
+// r2015: a publication that gets new content starts unacknowledged. Whether the receipt is reset is decided by the
+// write's own arguments (resetReceipt, and the audience being there at all) and by nothing else - in particular not by
+// comparing versions inside the interceptor, where the new version has not been minted yet.
+func r2015(c *an.Ctx) {
+	const rule = "R20.15"
+	fn := mustFunc(c, rule, "pkg/trait/publicationpb", "Model", "withComputedProperties")
+	if fn == nil {
+		return
+	}
+	name := an.FuncName(fn)
+	c.SawFunc(name)
+	n := 0
+	for _, ic := range interceptorBodies(fn, "InterceptAfter") {
+		an.Instrs(ic.fn, func(in ssa.Instruction) {
+			st, ok := in.(*ssa.Store)
+			if !ok {
+				return
+			}
+			if _, _, fld, isF := an.FieldOf(st.Addr); !isF || fld != "Receipt" {
+				return
+			}
+			n++
+			extra := ""
+			flag := false
+			for _, e := range an.GuardingEdges(st) {
+				cond := e.If.Cond
+				for {
+					if u, isNot := cond.(*ssa.UnOp); isNot && u.Op == token.NOT {
+						cond = u.X
+						continue
+					}
+					break
+				}
+				if _, _, f, isF := an.FieldOf(cond); isF && f == "resetReceipt" {
+					flag = true
+					continue
+				}
+				if x, _, isNil := an.NilTest(e.If.Cond); isNil {
+					if _, _, f, isF := an.FieldOf(x); isF && f == "Audience" {
+						continue
+					}
+				}
+				extra = c.Prog.Rel(e.If.Pos())
+			}
+			c.Check(flag && extra == "", rule, name+"|the receipt is reset whenever the write asks for it", st.Pos(), "guarded by resetReceipt only",
+				"the reset of the receipt depends on a further condition (at "+extra+"), e.g. a comparison of the old and new version made before the new version is minted: an update that leaves the version field alone (a masked update of the body, a read-modify-write) keeps the old receipt, so the new version is stored already ACCEPTED and acknowledging it is refused")
+		})
+	}
+	if n == 0 {
+		c.Unk(rule, name+"|the receipt is reset whenever the write asks for it", fn.Pos(), "no reset of the receipt found")
 	}
 }
